@@ -61,13 +61,13 @@
                                            about an absolute child -- its whole subtree, sizes, insets, margins, alignment -- except its
                                            grid placement lines; in particular AbsBlind holds for ab = "box-generating, absolute, on lines
                                            (r, c)", for every r, c (auto / auto included)
-     C06_grid_engine_instance              hence the conclusion of C06_abs_blind_engine for every engine of grid containers and leaves, for
+     C06_grid_engine_instance_partial              hence the conclusion of C06_abs_blind_engine for every engine of grid containers and leaves, for
                                            the absolute nodes of any one line class
    KEYED engine theorem (Proofs/EngineAbsKey.v: Proofs/EngineAbs.v with a `key` = what a parent may read of an out-of-flow child's style):
      C06_abs_blind_engine_keyed            for every algorithm that is AbsBlindK: trees that coincide up to oeq / leq outside the subtrees of
                                            out-of-flow nodes WHOSE KEYS AGREE stay so through any evaluation; AbsBlind implies AbsBlindK
      C06_grid_algorithm_abs_blind_keyed    the grid algorithm is AbsBlindK for ALL box-generating absolute children, key = (grid_row, grid_column)
-     C06_taffy_engine_instance             hence, for every engine whose nodes are block, flex, grid containers or leaves (every kind
+     C06_taffy_engine_instance_partial             hence, for every engine whose nodes are block, flex, grid containers or leaves (every kind
                                            TaffyView::compute_child_layout dispatches on): replacing the subtree and the style of box-generating
                                            absolute nodes by anything absolute with the same grid lines changes nothing outside those subtrees but
                                            content sizes -- C06 for all of taffy, up to exactly the known finding (the lines) *)
@@ -720,8 +720,11 @@ Qed.
 
 (* engines made of grid containers (sel s = true) and leaves: two trees that coincide up to content_size outside the subtrees of
    box-generating absolute nodes on the lines (r, c) stay so through any pair of evaluations, and every node that is not itself such a
-   node returns the same output up to content_size *)
-Theorem C06_grid_engine_instance :
+   node returns the same output up to content_size.
+   PARTIAL (renamed by the audit of wave 7b): the absolute nodes of ONE line class (r, c) only -- the text says "with any ... grid-placement
+   styles" (the gap is the known finding C06/grid-estimate-absolute) --, plus the gaps of C06_abs_blind_engine_partial; both evaluations are
+   premises (`= Some`); `grid_leaf_algo` over GStyle is evaluated by no runner (the complete engine below is) *)
+Theorem C06_grid_engine_instance_partial :
   forall (T : Type) (N : Num T) (sel : GStyle T -> bool) (leaf : GStyle T -> GIn T -> LayoutOutput T) (r c : PB.Ln PB.GP)
          (mode : GIn T -> Engine.RunMode) (in_eqb : GIn T -> GIn T -> bool) (is_none : GStyle T -> bool)
          (hidden_out : LayoutOutput T) (zero_lay : GLay T),
@@ -787,8 +790,14 @@ Proof. intros T N. apply grid_alg_abs_blind_keyed. Qed.
    content_size.  (Only a grid parent reads the lines; the premise on them is what the known finding C06/grid-estimate-absolute costs.)
    `disp` is ANY dispatch on (own style, number of children), `leaf` ANY leaf routine; with `taffy_dispatch`, `block_pre`,
    `abs_child_block` (AbsChildLocal: C06_block_real_absolute_routine_local), `taffy_leaf` this is the engine `vh taffytree` runs against the
-   implementation on whole trees (notes/TAFFYTREE.md) *)
-Theorem C06_taffy_engine_instance :
+   implementation on whole trees (notes/TAFFYTREE.md).
+   PARTIAL (renamed by the audit of wave 7b): absolute nodes must KEEP their grid lines (the text: "with any ... grid-placement styles ...");
+   the stored layout of the absolute node itself and everything below it is unconstrained (asim_abs); content_size is ignored; both
+   evaluations are premises (`= Some`: no totality lemma for real_algo); ONE memoised query -- the runner evaluates
+   taffy_compute_root (root input from the root style, root layout stored) over SEVERAL passes: that composition is not stated; where the
+   Rust code panics the grid branch is the stand-in of Model/GridAlgTotal.v (both sides then are the same resumption by construction).
+   Computed instance: C06_taffy_engine_example. *)
+Theorem C06_taffy_engine_instance_partial :
   forall (T : Type) (N : Num T) (disp : TStyle T -> nat -> TKind) (pre : BStyle T -> BIn T -> BIn T)
          (abs_child : @AbsChild T) (leaf : TStyle T -> FIn T -> LayoutOutput T)
          (mode : FIn T -> Engine.RunMode) (in_eqb : FIn T -> FIn T -> bool) (is_none : TStyle T -> bool)
@@ -836,7 +845,91 @@ Print Assumptions C06_bl_engine_real_instance_partial.
 Print Assumptions C06_bl_engine_real_example.
 Print Assumptions C06_grid_algorithm_abs_blind_refuted.
 Print Assumptions C06_grid_algorithm_abs_blind_lines.
-Print Assumptions C06_grid_engine_instance.
+Print Assumptions C06_grid_engine_instance_partial.
 Print Assumptions C06_abs_blind_engine_keyed.
 Print Assumptions C06_grid_algorithm_abs_blind_keyed.
-Print Assumptions C06_taffy_engine_instance.
+Print Assumptions C06_taffy_engine_instance_partial.
+
+(* ------------------------------------------------------------------------------------------------------------ *)
+(** * Computed instances of the grid-algorithm and complete-engine theorems (audit, wave 7b)
+
+   No grid or taffy-engine theorem of this file had a computed Example: keyed `asim` / `lrel` were never exhibited on a grid. *)
+From TV Require Import Model.TaffyRoot Model.TaffyKey Model.TaffyExample Model.TaffyExample2 Proofs.GridAlgExamples Proofs.BlockAbsLocal.
+From TV Require Model.MeasureFamily.
+
+(* the three heights 28 / 7 / 0 of C06_grid_algorithm_abs_blind_refuted are not the stand-in's: the Rust code does not panic on any of the
+   three inputs (0 x 0 is also what `Ret panic_out` would return) *)
+Example C06_grid_algorithm_abs_blind_refuted_no_panic :
+  grid_no_panic gab_container [gab_child4] (gab_input Engine.ComputeSize) = true /\
+  grid_no_panic gab_container [gab_child_bare] (gab_input Engine.ComputeSize) = true /\
+  grid_no_panic gab_container [] (gab_input Engine.ComputeSize) = true.
+Proof. repeat split; vm_compute; reflexivity. Qed.
+
+(* grid algorithm (Proofs/GridAlgExamples.v): the baseline-aligned two-column grid with an ABSOLUTE child between its two in-flow items, on
+   grid_row 1 / span 1, grid_column 2 on both sides; 40 x 15 with inset-left 3 on one side, 99 x 77 with margin 5 on the other: lrel, the lists
+   differ, no panic, the 17 events before the absolute child's layout are identical, the absolute child's own box differs (13, 0, 40 x 15
+   vs 15, 5, 99 x 77), the result is 20 x 30 on both sides; and ABis through the theorem *)
+Example C06_grid_algorithm_abs_blind_lines_example :
+  Forall2 (lrel g_visible_absolute) st_a st_b /\ st_a <> st_b /\
+  grid_no_panic gns_container st_a g_pl = true /\ grid_no_panic gns_container st_b g_pl = true /\
+  walk 60 (grid_alg gns_container st_a g_pl) = common_prefix ++ [ES 1 (xq 13) (xq 0) (xq 40) (xq 15); ER (xq 20) (xq 30)] /\
+  walk 60 (grid_alg gns_container st_b g_pl) = common_prefix ++ [ES 1 (xq 15) (xq 5) (xq 99) (xq 77); ER (xq 20) (xq 30)] /\
+  ABis (GIn XQ) (LayoutOutput XQ) (GLay XQ) gout_eq glay_eq (abmask (GStyle XQ) g_visible_absolute st_a)
+       (grid_alg gns_container st_a g_pl) (grid_alg gns_container st_b g_pl).
+Proof.
+  assert (Hr : Forall2 (lrel g_visible_absolute) st_a st_b).
+  { constructor; [left; reflexivity|]. constructor; [right; repeat split; reflexivity|]. constructor; [left; reflexivity|constructor]. }
+  split; [exact Hr|].
+  split; [intros E; apply (f_equal (fun l => option_map (fun s => size (gs_core s)) (nth_error l 1))) in E; vm_compute in E; discriminate|].
+  split; [vm_compute; reflexivity|]. split; [vm_compute; reflexivity|]. split; [vm_compute; reflexivity|]. split; [vm_compute; reflexivity|].
+  apply (proj1 (C06_grid_algorithm_abs_blind_lines XQ _) g_visible_absolute (fun _ E => E)). exact Hr.
+Qed.
+
+(* complete engine (Model/TaffyExample2.v): block root 200 > [GRID 50px 50px > [leaf 20 x 10; ABS; text leaf]; leaf 10 x 10] with ABS on
+   grid_row 1 / span 1, grid_column 2 -- a 40 x 15 flex CONTAINER with a 33 x 44 child on one side, a bare 99 x 77 block leaf on the other:
+   keyed asim of the fresh trees, the styles differ, the lines agree, BOTH evaluations of the engine `vh taffytree` runs succeed, the
+   theorem's conclusion, output 200 x 20 on both sides, all boxes: everything but ABS and its subtree coincides *)
+Notation xmemo := (Engine.memo (TStyle XQ) (FIn XQ) (LayoutOutput XQ) (FLay XQ) qi_mode (fin_eqb_with xq_seqb) t_is_none output_HIDDEN (f_with_order 0)
+                      (taffy_algo taffy_dispatch BlockEngine.block_pre abs_child_block taffy_leaf)).
+Notation kasim := (EngineAbsKey.asim (TStyle XQ) (FIn XQ) (LayoutOutput XQ) (FLay XQ) t_visible_absolute _ t_lines fout_eq flay_eq).
+Example C06_taffy_engine_example :
+  kasim (taffy_fresh ak) (taffy_fresh ak') /\ s_absa <> s_absb /\ t_lines s_absa = t_lines s_absb /\
+  exists o t o' t',
+    xmemo 8 (taffy_fresh ak) a_in = Some (o, t) /\
+    xmemo 8 (taffy_fresh ak') a_in = Some (o', t') /\
+    kasim t t' /\ fout_eq o o' /\
+    xq_is (width (out_size o)) 200 && xq_is (height (out_size o)) 20 = true /\
+    boxes_are (bxz t)  [(0,0,0,0); (0,0,200,10); (0,0,20,10); (50,0,40,15); (0,0,33,44); (50,0,50,10); (0,10,10,10)]%Z = true /\
+    boxes_are (bxz t') [(0,0,0,0); (0,0,200,10); (0,0,20,10); (50,0,99,77); (50,0,50,10); (0,10,10,10)]%Z = true.
+Proof.
+  assert (Hs : kasim (taffy_fresh ak) (taffy_fresh ak')).
+  { unfold ak, ak', TL, taffy_fresh. cbn [Engine.fresh map].
+    apply EngineAbsKey.asim_node; [apply EngineAbsKey.crel_refl; apply fout_eq_refl|apply flay_eq_refl|].
+    constructor; [|constructor; [apply EngineAbsKey.asim_refl; [apply fout_eq_refl|apply flay_eq_refl]|constructor]].
+    apply EngineAbsKey.asim_node; [apply EngineAbsKey.crel_refl; apply fout_eq_refl|apply flay_eq_refl|].
+    constructor; [apply EngineAbsKey.asim_refl; [apply fout_eq_refl|apply flay_eq_refl]|].
+    constructor; [apply EngineAbsKey.asim_abs; reflexivity|].
+    constructor; [apply EngineAbsKey.asim_refl; [apply fout_eq_refl|apply flay_eq_refl]|constructor]. }
+  split; [exact Hs|].
+  split; [intros E; apply (f_equal (fun s => display (t_core s))) in E; vm_compute in E; discriminate|]. split; [reflexivity|].
+  assert (X : match xmemo 8 (taffy_fresh ak) a_in, xmemo 8 (taffy_fresh ak') a_in with
+              | Some (o, t), Some (_, t') =>
+                  xq_is (width (out_size o)) 200 && xq_is (height (out_size o)) 20 &&
+                  boxes_are (bxz t)  [(0,0,0,0); (0,0,200,10); (0,0,20,10); (50,0,40,15); (0,0,33,44); (50,0,50,10); (0,10,10,10)]%Z &&
+                  boxes_are (bxz t') [(0,0,0,0); (0,0,200,10); (0,0,20,10); (50,0,99,77); (50,0,50,10); (0,10,10,10)]%Z
+              | _, _ => false end = true) by (vm_compute; reflexivity).
+  remember (xmemo 8 (taffy_fresh ak) a_in) as r eqn:E. remember (xmemo 8 (taffy_fresh ak') a_in) as r' eqn:E'.
+  destruct r as [[o t]|]; [|discriminate X]. destruct r' as [[o' t']|]; [|discriminate X].
+  exists o, t, o', t'. split; [reflexivity|]. split; [reflexivity|].
+  pose proof (C06_taffy_engine_instance_partial XQ _ taffy_dispatch BlockEngine.block_pre abs_child_block taffy_leaf qi_mode (fin_eqb_with xq_seqb)
+                t_is_none output_HIDDEN (f_with_order 0) (abs_child_block_local (T := XQ))) as Hthm.
+  cbv zeta in Hthm.
+  destruct (Hthm 8%nat 8%nat (taffy_fresh ak) (taffy_fresh ak') a_in o t o' t' Hs (eq_sym E) (eq_sym E')) as [Ht Ho].
+  split; [exact Ht|]. split; [apply Ho; reflexivity|].
+  apply andb_true_iff in X. destruct X as [X X3]. apply andb_true_iff in X. destruct X as [X1 X2].
+  repeat split; assumption.
+Qed.
+
+Print Assumptions C06_grid_algorithm_abs_blind_refuted_no_panic.
+Print Assumptions C06_grid_algorithm_abs_blind_lines_example.
+Print Assumptions C06_taffy_engine_example.
